@@ -1,6 +1,6 @@
 /-
   The store of the model refines the books of the spec, step by step (C01 goal 1, micro level):
-  `Rel s B` – every mined bucket of store `s`, read through `AMap.get`, is the corresponding table of `B`;
+  `Agree s B` – every mined bucket of store `s`, read through `AMap.get`, is the corresponding table of `B`;
   `spendOne` refines `spendB`, `creditOne` refines `createB`, `gameOne` refines `depositB`, and none of
   the error exits of the model fires as long as the books are locally consistent (`Loc`, `LocG`).
 -/
@@ -9,7 +9,7 @@ namespace MW.Lemmas.Ledger
 open MW MW.Model.Ledger MW.Spec.Chain MW.Spec.Books
 
 /-- the mined buckets of the store are the tables of the books -/
-structure Rel (s : Store) (B : Book) : Prop where
+structure Agree (s : Store) (B : Book) : Prop where
   unspent : ∀ w tx idx, AMap.get s.unspent (w, tx, idx) =
     ((lookupU B.L tx idx).filter (fun u => decide (u.wallet = w))).map (·.blk)
   credits : ∀ k, AMap.get s.credits k = B.credits k
@@ -20,7 +20,7 @@ structure Rel (s : Store) (B : Book) : Prop where
   addrs : ∀ k, AMap.get s.addrs k = B.addrs k
 
 /-- the working balances (ready wallets) are the totals of the ledger -/
-def RelBal (ready : List Wid) (bals : Bals) (B : Book) : Prop :=
+def AgreeBal (ready : List Wid) (bals : Bals) (B : Book) : Prop :=
   ∀ w, ready.contains w = true → AMap.get bals w = some (totalU B.L w)
 
 /-- local consistency of the books: one entry per outpoint, each with its unspent credit and its owner -/
@@ -60,11 +60,11 @@ theorem gameKey_ne_of_key_ne {u u' : UCoin} (b b' : Bool) (h : ¬ (u'.tx = u.tx 
 
 theorem spendOne_refines {p : Params} {own : Own} {ready : List Wid} {s : Store} {bals : Bals} {B : Book}
     {tr : TxRec} {blk : BlockMeta} {k : Nat} {i : Inp} {u : UCoin}
-    (hR : Rel s B) (hB : RelBal ready bals B) (hL : Loc p own B) (hG : LocG B)
+    (hR : Agree s B) (hB : AgreeBal ready bals B) (hL : Loc p own B) (hG : LocG B)
     (hi : tr.tx.ins[k]? = some i) (hu : lookupU B.L i.tx i.idx = some u)
     (hready : ready.contains u.wallet = true) :
     ∃ sb', spendOne tr blk (s, bals) ⟨k, u.out, u.wallet, u.change⟩ = .ok sb' ∧
-      Rel sb'.1 (spendB p tr.tx blk B k i) ∧ RelBal ready sb'.2 (spendB p tr.tx blk B k i) ∧
+      Agree sb'.1 (spendB p tr.tx blk B k i) ∧ AgreeBal ready sb'.2 (spendB p tr.tx blk B k i) ∧
       Loc p own (spendB p tr.tx blk B k i) ∧ LocG (spendB p tr.tx blk B k i) ∧ SameSync s sb'.1 := by
   obtain ⟨hmem, htx, hidx⟩ := lookupU_some hu
   have h1 : AMap.get s.unspent (u.wallet, i.tx, i.idx) = some u.blk := by
@@ -180,6 +180,115 @@ theorem spendOne_refines {p : Params} {own : Own} {ready : List Wid} {s : Store}
       exact hG u' hm.1 hd'
     · simp only [hd]
       exact hG u' hm.1 hd'
+  · exact ⟨rfl, rfl, rfl, rfl⟩
+
+-- ------------------------------------------------------------------ creditOne ⊑ createB
+
+/-- deposits of every transaction but `t` have their history record (the records of `t`'s own
+    outputs are written after its credits) -/
+def LocGx (t : TxId) (B : Book) : Prop :=
+  ∀ u ∈ B.L, u.tx ≠ t → isDeposit u.out.cls = true → B.game (u.gameKey false) = some ()
+
+theorem LocG.toLocGx {B : Book} (h : LocG B) (t : TxId) : LocGx t B := fun u hu _ hd => h u hu hd
+
+theorem creditOne_refines {p : Params} {own : Own} {ready : List Wid} {s : Store} {bals : Bals} {B : Book}
+    {tr : TxRec} {blk : BlockMeta} {j : Nat} {o : Out} {w : Wid} {ch : Bool}
+    (hR : Agree s B) (hB : AgreeBal ready bals B) (hL : Loc p own B) (hG : LocGx tr.tx.id B)
+    (ho : ownerOf own o = some (w, ch)) (hready : ready.contains w = true)
+    (hfC : B.credits ⟨tr.tx.id, blk, j⟩ = none) (hfL : lookupU B.L tr.tx.id j = none) :
+    ∃ sb', creditOne p tr blk (s, bals) ⟨j, o, w, ch⟩ = .ok sb' ∧
+      Agree sb'.1 (createB p own tr.tx blk B j o) ∧ AgreeBal ready sb'.2 (createB p own tr.tx blk B j o) ∧
+      Loc p own (createB p own tr.tx blk B j o) ∧ LocGx tr.tx.id (createB p own tr.tx blk B j o) ∧
+      SameSync s sb'.1 := by
+  let u : UCoin := ⟨w, tr.tx.id, j, blk, tr.tx.cb, o, ch⟩
+  have hB' : createB p own tr.tx blk B j o =
+      { B with
+        L := B.L ++ [u],
+        credits := upd B.credits u.credKey (some (creditOf p u)),
+        addrs := match B.addrs (w, o.cls.isStaking, o.addr) with
+          | some h => if h = 0 then upd B.addrs (w, o.cls.isStaking, o.addr) (some blk.height) else B.addrs
+          | none => upd B.addrs (w, o.cls.isStaking, o.addr) (some blk.height) } := by
+    unfold createB; rw [ho]; rfl
+  have hck : u.credKey = ⟨tr.tx.id, blk, j⟩ := rfl
+  have h1 : (AMap.get s.credits ⟨tr.tx.id, blk, j⟩).isSome = false := by rw [hR.credits, hfC]; rfl
+  have hmc : minedCreditOf p tr.tx.cb ⟨j, o, w, ch⟩ = creditOf p u := rfl
+  refine ⟨creditApply p tr blk (s, bals) ⟨j, o, w, ch⟩, ?_, ?_, ?_, ?_, ?_, ?_⟩
+  · unfold creditOne
+    simp only [h1]
+    simp
+  · rw [hB']
+    constructor
+    · intro w' tx idx
+      simp only [creditApply]
+      rw [AMap.get_put, lookupU_append_single, hR.unspent]
+      by_cases hk : tr.tx.id = tx ∧ j = idx
+      · obtain ⟨rfl, rfl⟩ := hk
+        rw [hfL]
+        by_cases hw : w = w'
+        · simp [hw, u, Option.filter]
+        · have : ¬ ((w, tr.tx.id, j) = (w', tr.tx.id, j)) := by
+            intro h; injection h with h _; exact hw h
+          simp [this, u, hw, Option.filter]
+      · have : ¬ ((w, tr.tx.id, j) = (w', tx, idx)) := by
+          intro h; injection h with _ h; injection h with ha hb; exact hk ⟨ha, hb⟩
+        simp only [this, if_false]
+        cases hl : lookupU B.L tx idx with
+        | some x => rfl
+        | none =>
+          have : ¬ (u.tx = tx ∧ u.idx = idx) := hk
+          simp [this]
+    · intro ck
+      simp only [creditApply]
+      rw [AMap.get_put, hR.credits, hmc]; rfl
+    · intro x; simp only [creditApply]; exact hR.debits x
+    · intro x; simp only [creditApply]; exact hR.game x
+    · intro x; simp only [creditApply]; exact hR.txrecs x
+    · intro x; simp only [creditApply]; exact hR.blocks x
+    · intro ak
+      simp only [creditApply]
+      rw [hR.addrs]
+      cases ha : B.addrs (w, o.cls.isStaking, o.addr) with
+      | none => simp only [AMap.get_put, hR.addrs, upd_apply]
+      | some h =>
+        by_cases h0 : h = 0
+        · simp only [h0, if_true, AMap.get_put, hR.addrs, upd_apply]
+        · simp only [h0, if_false]; exact hR.addrs ak
+  · rw [hB']
+    intro w' hw'
+    simp only [creditApply]
+    rw [AMap.get_put, totalU_append_single]
+    by_cases hw : w = w'
+    · subst hw
+      have : getBal bals w = totalU B.L w := by unfold getBal; rw [hB _ hready]; rfl
+      simp [this, u]
+    · have : ¬ (u.wallet = w') := hw
+      simp only [hw, if_false, this, Nat.add_zero]
+      exact hB w' hw'
+  · rw [hB']
+    constructor
+    · exact keysOK_append_single hL.keys u hfL
+    · intro u' hu'
+      rcases List.mem_append.1 hu' with h | h
+      · have hne : u.credKey ≠ u'.credKey := by
+          apply credKey_ne_of_key_ne
+          intro hk
+          exact lookupU_none hfL u' h hk
+        simp only [upd_apply, hne, if_false]
+        exact hL.cred u' h
+      · simp only [List.mem_singleton] at h
+        subst h
+        simp [upd_apply]
+    · intro u' hu'
+      rcases List.mem_append.1 hu' with h | h
+      · exact hL.own u' h
+      · simp only [List.mem_singleton] at h
+        subst h; exact ho
+  · rw [hB']
+    intro u' hu' hne hd
+    rcases List.mem_append.1 hu' with h | h
+    · exact hG u' h hne hd
+    · simp only [List.mem_singleton] at h
+      subst h; exact absurd rfl hne
   · exact ⟨rfl, rfl, rfl, rfl⟩
 
 end MW.Lemmas.Ledger
